@@ -266,7 +266,7 @@ theorem literal_ok (T : Tables) (hT : TablesOK T) (hG : TablesGrammar T) (urlOk 
     · next hl =>
       subst hl
       cases lang with
-      | none => exact absurd rfl hlang
+      | none => exact absurd rfl hlang.1
       | some t =>
         simp only [List.cons_append, List.append_assoc, List.nil_append, NQG.literal]
         rw [stringLit_body T hT hG]
